@@ -416,8 +416,12 @@ where
         &self,
         mut welcome_message: &[u8],
     ) -> Result<(StagedWelcome, NostrGroupDataExtension), Error> {
-        // Parse welcome message
+        // Parse welcome message. Bytes after the serialized message make the event
+        // ambiguous and are refused.
         let welcome_message_in = MlsMessageIn::tls_deserialize(&mut welcome_message)?;
+        if !welcome_message.is_empty() {
+            return Err(Error::InvalidWelcomeMessage);
+        }
 
         let welcome: Welcome = match welcome_message_in.extract() {
             MlsMessageBodyIn::Welcome(welcome) => welcome,
